@@ -161,6 +161,16 @@ class Ops(SeriesOps):
     def frame_setitem(self, f: Frame, key: Any, v: Any, node) -> None:
         if isinstance(key, str):
             self.set_column(f, key, v, node)
+        elif isinstance(key, list) and all(isinstance(k, str) for k in key) and isinstance(v, Frame) and v.colnames() is not None and len(v.colnames()) == len(key) \
+                and v.base == f.base and v.rows == f.rows:
+            # pandas pairs the key list with the value frame's columns POSITIONALLY (DataFrame._setitem_array)
+            for k, src in zip(key, v.colnames()):
+                t = v.col(src)
+                self.M.mutating(f, node, "setcol", column=k, term=t)
+                f.setcol(k, t)
+        elif isinstance(key, list) and all(isinstance(k, str) for k in key) and not isinstance(v, (Frame, Ser)) and not isinstance(v, (list, tuple, PyTuple)):
+            for k in key:                      # scalar broadcast
+                self.set_column(f, k, v, node)
         elif isinstance(key, list) and all(isinstance(k, str) for k in key):
             for k in key:
                 self.M.mutating(f, node, "setcol", column=k, term=T.opaque("multi-column store"))
